@@ -1,6 +1,7 @@
 package eval
 
 import (
+	"bytes"
 	"fmt"
 	"go/ast"
 	"go/constant"
@@ -12,6 +13,7 @@ import (
 	"sort"
 	"strconv"
 	"strings"
+	"unicode/utf8"
 
 	"golang.org/x/tools/go/packages"
 	"golang.org/x/tools/go/types/typeutil"
@@ -215,9 +217,15 @@ func (ev *Evaluator) callTypesFunc(pos token.Pos, fn *types.Func, recv Value, ar
 	if decl == nil || decl.Body == nil {
 		ev.fail(pos, "call to %s: no source available and no model registered", fn.FullName())
 	}
+	if Interpreted != nil {
+		Interpreted[fn.FullName()]++
+	}
 	fv := &FuncVal{Decl: decl, Pkg: pkg, Recv: recv, Fn: fn}
 	return ev.callFuncVal(pos, fv, args)
 }
+
+// Interpreted, when non-nil, counts the source functions the evaluators of this process entered (coverage report).
+var Interpreted map[string]int
 
 func (ev *Evaluator) callFuncVal(pos token.Pos, fv *FuncVal, args []Value) Value {
 	if fv.Native != nil {
@@ -1571,9 +1579,59 @@ func (ev *Evaluator) builtin(env *Env, e *ast.CallExpr, name string) Value {
 	return nil
 }
 
+// appendBytes: append to a byte slice whose text is (partly) symbolic - kept as one BytesOf string.
+func (ev *Evaluator) appendBytes(pos token.Pos, cur Str, add []Value) (Value, bool) {
+	for _, a := range add {
+		if sp, ok := a.(Spread); ok {
+			switch sv := sp.V.(type) {
+			case Str:
+				cur = cur.Concat(sv)
+			case BytesOf:
+				cur = cur.Concat(sv.S)
+			case Nil:
+			case Slice:
+				b, ok := constBytes(sv)
+				if !ok {
+					return nil, false
+				}
+				cur = cur.Concat(S(string(b)))
+			default:
+				return nil, false
+			}
+			continue
+		}
+		l, ok := a.(Lin)
+		if !ok || !l.IsConst() {
+			return nil, false
+		}
+		cur = cur.Concat(S(string([]byte{byte(l.C)})))
+	}
+	return BytesOf{S: cur}, true
+}
+
 func (ev *Evaluator) appendTo(pos token.Pos, base Value, add []Value) Value {
 	switch b := base.(type) {
+	case BytesOf:
+		if v, ok := ev.appendBytes(pos, b.S, add); ok {
+			return v
+		}
 	case Slice, Nil:
+		for _, a := range add {
+			sp, isSpread := a.(Spread)
+			if !isSpread {
+				continue
+			}
+			_, isBytes := sp.V.(BytesOf)
+			st, isStr := sp.V.(Str)
+			if isBytes || (isStr && !st.IsConst()) {
+				if cb, ok := constBytes(base); ok {
+					if v, ok := ev.appendBytes(pos, S(string(cb)), add); ok {
+						return v
+					}
+				}
+				break
+			}
+		}
 		var s Slice
 		if bs, ok := b.(Slice); ok {
 			s = bs
@@ -1899,6 +1957,95 @@ func (ev *Evaluator) native(pos token.Pos, fn *types.Func, recv Value, args []Va
 			return S(strings.Repeat(s.Const(), int(n.C))), true
 		}
 		ev.fail(pos, "symbolic strings.Repeat")
+	case "bytes.Count", "bytes.Equal", "bytes.IndexByte", "bytes.LastIndexByte", "bytes.Index", "bytes.Contains", "bytes.HasPrefix", "bytes.HasSuffix", "bytes.Compare":
+		a, ok1 := constBytes(args[0])
+		if !ok1 {
+			ev.fail(pos, "%s of symbolic bytes %s", full, Show(args[0]))
+		}
+		switch full {
+		case "bytes.IndexByte", "bytes.LastIndexByte":
+			c := argLin(1)
+			if !c.IsConst() {
+				ev.fail(pos, "%s of a symbolic byte", full)
+			}
+			if full == "bytes.IndexByte" {
+				return K(int64(bytes.IndexByte(a, byte(c.C)))), true
+			}
+			return K(int64(bytes.LastIndexByte(a, byte(c.C)))), true
+		}
+		b, ok2 := constBytes(args[1])
+		if !ok2 {
+			ev.fail(pos, "%s of symbolic bytes %s", full, Show(args[1]))
+		}
+		switch full {
+		case "bytes.Count":
+			return K(int64(bytes.Count(a, b))), true
+		case "bytes.Equal":
+			return bytes.Equal(a, b), true
+		case "bytes.Index":
+			return K(int64(bytes.Index(a, b))), true
+		case "bytes.Contains":
+			return bytes.Contains(a, b), true
+		case "bytes.HasPrefix":
+			return bytes.HasPrefix(a, b), true
+		case "bytes.HasSuffix":
+			return bytes.HasSuffix(a, b), true
+		case "bytes.Compare":
+			return K(int64(bytes.Compare(a, b))), true
+		}
+	case "strconv.AppendInt", "strconv.AppendUint":
+		n, base := argLin(1), argLin(2)
+		dst, ok := constBytes(args[0])
+		if ok && n.IsConst() && base.IsConst() {
+			return bytesToSlice(strconv.AppendInt(dst, n.C, int(base.C))), true
+		}
+		if base.IsConst() && base.C == 10 {
+			digits := Str{Parts: []StrPart{{Itoa: &n}}}.norm()
+			if ok {
+				return BytesOf{S: S(string(dst)).Concat(digits)}, true
+			}
+			if bo, isB := args[0].(BytesOf); isB {
+				return BytesOf{S: bo.S.Concat(digits)}, true
+			}
+		}
+		ev.fail(pos, "%s of symbolic arguments", full)
+	case "strconv.FormatInt":
+		n, base := argLin(0), argLin(1)
+		if base.IsConst() && base.C == 10 {
+			return Str{Parts: []StrPart{{Itoa: &n}}}.norm(), true
+		}
+		if !n.IsConst() || !base.IsConst() {
+			ev.fail(pos, "FormatInt of symbolic arguments")
+		}
+		return S(strconv.FormatInt(n.C, int(base.C))), true
+	case "strconv.AppendFloat":
+		// kept symbolic like FormatFloat: the destination's bytes followed by the marker's bytes
+		var cur Str
+		if dst, ok := constBytes(args[0]); ok {
+			cur = S(string(dst))
+		} else if bo, isB := args[0].(BytesOf); isB {
+			cur = bo.S
+		} else {
+			ev.fail(pos, "AppendFloat to a symbolic destination")
+		}
+		f, _ := args[1].(*FExpr)
+		if f == nil {
+			ev.fail(pos, "AppendFloat of a non-float")
+		}
+		return BytesOf{S: cur.Concat(SSym(fmt.Sprintf("fmtfloat(%s,%s,%s,%s)", f, Show(args[2]), Show(args[3]), Show(args[4]))))}, true
+	case "unicode/utf8.AppendRune":
+		dst, ok := constBytes(args[0])
+		r := argLin(1)
+		if !ok || !r.IsConst() {
+			ev.fail(pos, "AppendRune of symbolic arguments")
+		}
+		return bytesToSlice(utf8.AppendRune(dst, rune(r.C))), true
+	case "unicode/utf8.RuneLen":
+		r := argLin(0)
+		if !r.IsConst() {
+			ev.fail(pos, "RuneLen of a symbolic rune")
+		}
+		return K(int64(utf8.RuneLen(rune(r.C)))), true
 	case "bytes.Repeat":
 		n := argLin(1)
 		b, ok := args[0].(Slice)
@@ -2340,3 +2487,37 @@ func (ev *Evaluator) sortInterface(env *Env, e *ast.CallExpr, v Value) bool {
 
 // Zero returns the zero value of a type (for models that must return "nothing").
 func (ev *Evaluator) Zero(t types.Type) Value { return ev.zero(token.NoPos, t) }
+
+// constBytes reads a byte slice whose every element is a known constant.
+func constBytes(v Value) ([]byte, bool) {
+	if r, ok := v.(*Ref); ok {
+		v = r.Get()
+	}
+	switch x := v.(type) {
+	case nil, Nil:
+		return nil, true
+	case BytesOf:
+		if x.S.IsConst() {
+			return []byte(x.S.Const()), true
+		}
+	case Slice:
+		out := make([]byte, 0, x.Len())
+		for _, e := range x.Elems() {
+			l, ok := e.(Lin)
+			if !ok || !l.IsConst() {
+				return nil, false
+			}
+			out = append(out, byte(l.C))
+		}
+		return out, true
+	}
+	return nil, false
+}
+
+func bytesToSlice(b []byte) Value {
+	vs := make([]Value, len(b))
+	for i, c := range b {
+		vs[i] = K(int64(c))
+	}
+	return NewSlice(vs...)
+}
